@@ -16,6 +16,11 @@ def region_runs(q_plain, q_asan, t_plain, t_asan, exhaustive=True):
 
 MATRIX_MON = {"mon_matrix": {"sources": ["mon_matrix.c", "vf.c"]}}
 
+FILTER_MON = {"mon_filter": {"sources": ["mon_filter.c", "vf.c"]}}
+
+C01_MON = {"mon_c01": {"sources": ["mon_c01.c", "ref_pixel.c", "ref_ops.c", "vf.c"]}}
+GENERAL_ONLY = {"PIXMAN_DISABLE": "fast mmx sse2 ssse3"}
+
 PROPS = {
     "C05": dict(
         level="exploration", monitors=REGION_MON,
@@ -70,6 +75,38 @@ PROPS = {
         floors={"any": {"point_calls": 10000, "point_exact_ties": 20, "invert_singular_inputs": 50, "invert_well_conditioned": 50, "bounds_box_overflows_int16": 5, "directed_cases": 9}},
         assumptions=["__int128 rational reference written from the statement", "gcc arithmetic right shift of negative values (as pixman itself assumes)"],
     ),
+    "C18": dict(
+        level="exploration", monitors=FILTER_MON,
+        runs=[dict(name="grid-asan", monitor="mon_filter", flavour="asan", config="grid", cases={"quick": 12096, "thorough": 12096}),
+              dict(name="grid-ubsan", monitor="mon_filter", flavour="ubsan", config="grid", cases={"quick": 12096, "thorough": 12096}, tiers=("thorough",)),
+              dict(name="random-asan", monitor="mon_filter", flavour="asan", cases={"quick": 3000, "thorough": 150000}),
+              dict(name="random-ubsan", monitor="mon_filter", flavour="ubsan", cases={"quick": 1500, "thorough": 50000})],
+        ubsan_attr=[r"pixman-filter\.c:"],
+        rule="per axis the full grid {8 reconstruction} x {8 sampling kernels} x {21 scales 1/256..64 incl. 1+-e and non-dyadic} x {subsample bits 0..8} (12096 points, every one visited; the other axis walks the same grid with a different stride) "
+             "plus random 16.16 scales (1/65536..64, +-e around 1, powers of two, negative); for each block: header vs announced length, every phase summed in 64 bits must be 65536, "
+             "set_filter must accept it, a constant a8r8g8b8 image composited through it (PAD/NORMAL) must stay constant; the block is the library's own exact-size heap block so ASan sees any write outside it; "
+             "float-cast/overflow reports inside pixman-filter.c are attributed here; evaluations = phases summed + structural checks + pixels compared; a cell = (kernel pair, bits, width, scale)",
+        floors={"any": {"phases": 100000, "constant_image_draws": 500, "grid_points": 12096}},
+        exhaustive={"quick": True, "thorough": True},
+        exhaustive_note="exhaustive over the enumerated per-axis grid only (config 'grid'); scales are a finite sample of the 2^31 positive 16.16 values",
+        assumptions=["phase sums recomputed in 64-bit integers from the returned block"],
+    ),
+    "C01": dict(
+        level="exploration", monitors=C01_MON,
+        runs=[dict(name="default-plain", monitor="mon_c01", flavour="plain", cases={"quick": 60000, "thorough": 3000000}),
+              dict(name="general-only-plain", monitor="mon_c01", flavour="plain", config="general-only", env=GENERAL_ONLY, cases={"quick": 40000, "thorough": 2000000}),
+              dict(name="default-asan", monitor="mon_c01", flavour="asan", cases={"quick": 8000, "thorough": 200000}),
+              dict(name="alpha-sweep", monitor="mon_c01", flavour="plain", config="alpha-sweep", cases={"quick": 10752, "thorough": 344064}),
+              dict(name="alpha-sweep-general", monitor="mon_c01", flavour="plain", config="alpha-sweep", env=GENERAL_ONLY, cases={"quick": 10752, "thorough": 344064}, tiers=("thorough",))],
+        rule="one case = one composite32 of a 1..67-pixel row: operator = case index mod 53, mask mode (none/unified/component) = next digit, source/mask/destination formats drawn from every direct-colour format the library "
+             "supports (narrow, 10-bit, sRGB, float), operands as bits images, solid fills or 1x1 repeating images; channel values from {0,1,2,0x7f,0x80,0xfe,0xff} x random with alpha 0/255 forced in 25% each; "
+             "every destination pixel is decoded and compared: exact integer rule (Porter-Duff+ADD, all-narrow formats: bit-exact on defined bits), real-valued Render/PDF equations +-1 destination step (float-evaluated operators or wide formats), "
+             "+-1.5 8-bit steps (integer-evaluated PDF blend modes); the alpha-sweep config walks all 256x256 (source alpha, destination alpha) pairs for the 14 exact operators x 3 mask modes; "
+             "evaluations = pixels compared; a cell = (operator, mask mode, src/mask/dst formats, operand kinds, alpha edge class) by hash",
+        floors={"any": {"labels:op_mode_oracle": 150, "pixels_exact": 200000, "pixels_float": 200000, "pixels_int_blend": 20000}},
+        assumptions=["reference equations in harness/ref_ops.c written from the Render/PDF specifications", "HSL operators with a component-alpha mask and dithered destinations are not claimed",
+                     "indexed, gray and YUV formats are exercised by C10, not here"],
+    ),
 }
 
 # ---------------------------------------------------------------- MANIFEST texts
@@ -93,6 +130,11 @@ MANIFEST_TEXT = {
         level_text="Exploration: 10^6..10^8 calls with magnitude-extreme and engineered operands are compared with exact rational arithmetic (rounding, overflow reporting, no abort).",
         level_note="trusted: the __int128 reference in harness/mon_matrix.c; tolerances exactly those of the statement (exact for |w|<65536, 1 unit otherwise; multiply 1.5 units; invert 1 unit for well-conditioned input)"),
 }
+
+MANIFEST_TEXT["C18"] = dict(
+    technique="structural runtime monitor on the returned block + ASan (exact-size heap block) + UBSan attribution in pixman-filter.c",
+    level_text="Exploration, exhaustive over an enumerated grid: all 64 kernel pairs x 21 scales x subsample bits 0..8 per axis plus random scales; each block is checked for length/header agreement, exact 64-bit phase sums, set_filter acceptance and constancy of a filtered constant image, under ASan.",
+    level_note="trusted: 64-bit re-summation in harness/mon_filter.c; ASan red zones around the library's own malloc block")
 
 NOT_CLAIMED = {p: "monitor not built yet in this round (design in DESIGN.md section 6); no claim is made" for p in
                ["C%02d" % i for i in range(1, 21)]}
